@@ -210,7 +210,8 @@ impl CoseRecipientBuilder {
 
     /// Add a [`CoseRecipient`].
     #[must_use]
-    pub fn add_recipient(self, recipient: CoseRecipient) -> Self { let mut self_ = self;
+    pub fn add_recipient(self, recipient: CoseRecipient) ->« (r:» Self«)
+        ensures r.inner() == (CoseRecipient { recipients: r.inner().recipients, ..self.inner() }), r.inner().recipients@ == self.inner().recipients@.push(recipient),» { let mut self_ = self;
         self_.0.recipients.push(recipient);
         self_
     }
@@ -492,7 +493,8 @@ impl CoseEncryptBuilder {
 
     /// Add a [`CoseRecipient`].
     #[must_use]
-    pub fn add_recipient(self, recipient: CoseRecipient) -> Self { let mut self_ = self;
+    pub fn add_recipient(self, recipient: CoseRecipient) ->« (r:» Self«)
+        ensures r.inner() == (CoseEncrypt { recipients: r.inner().recipients, ..self.inner() }), r.inner().recipients@ == self.inner().recipients@.push(recipient),» { let mut self_ = self;
         self_.0.recipients.push(recipient);
         self_
     }
